@@ -1,0 +1,76 @@
+//go:build verif
+
+package mutagen
+
+// Contracts for Mutagen-style ignores (property C14). Comment-only file:
+// compiled only under the "verif" build tag, contains no code. The "//@"
+// lines are read by /verif/govc. dmatch/pbase/pclean abstract the glob matcher
+// and path helpers (trusted extern contracts).
+
+//@ immutable ignorePattern
+
+// A pattern matches a path as the statement says: trailing-slash patterns
+// match only directories; a pattern matches the whole root-relative path, and
+// patterns without a slash (matchLeaf) also match the final component.
+//@ pred pmatches(p, path, directory) = !(p.directoryOnly && !directory) && (dmatch(p.pattern, path) || (p.matchLeaf && path != "" && dmatch(p.pattern, pbase(path))))
+
+//@ func (*ignorePattern).matches
+//@   requires i != nil
+//@   ensures[def] result == pmatches(i, path, directory)
+//@   modifies
+
+// Pattern parsing: a leading '!' negates; empty patterns are rejected.
+//@ func newIgnorePattern
+//@   fresh result0
+//@   ensures[negated] result1 == nil ==> result0 != nil && len(pattern) > 0 && (result0.negated <==> pattern[0] == '!')
+//@   ensures[fail] result1 != nil ==> result0 == nil
+//@   ensures[empty] len(pattern) == 0 ==> result1 != nil
+
+// Last match wins: verdict(ps, k, s) is the status after applying patterns
+// k..n-1 in order to status s (0 nominal, 1 ignored, 2 unignored); cntneg(ps, k)
+// is the number of negated patterns among k..n-1; cin(strs, k) the number of
+// '!'-prefixed strings among the first k.
+//@ spec step(p, path, directory, s) int = pmatches(p, path, directory) ? (p.negated ? 2 : 1) : s
+//@ spec rec verdict(ps, path, directory, k, s) int = k >= len(ps) ? s : verdict(ps, path, directory, k + 1, step(ps[k], path, directory, s))
+//@ spec rec cntneg(ps, k) int = k >= len(ps) ? 0 : cntneg(ps, k + 1) + (ps[k].negated ? 1 : 0)
+//@ spec rec cin(strs, k) int = k <= 0 ? 0 : cin(strs, k - 1) + (strs[k - 1][0] == '!' ? 1 : 0)
+//@ pred wfIgnorer(i) = i != nil && (forall k in 0..len(i.patterns) :: i.patterns[k] != nil) && i.negatedPatternCount == cntneg(i.patterns, 0)
+
+//@ lemma cntnonneg(ps []*ignorePattern, k int)
+//@   induction k down from len(ps)
+//@   ensures cntneg(ps, k) >= 0
+
+// Once ignored, with no negated pattern left, the status stays ignored.
+//@ lemma ignoredStable(ps []*ignorePattern, path string, directory bool, k int)
+//@   induction k down from len(ps)
+//@   uses cntnonneg(ps, _)
+//@   requires 0 <= k && cntneg(ps, k) == 0
+//@   ensures verdict(ps, path, directory, k, 1) == 1
+
+// If ps[j] is negated exactly when strs[j] starts with '!', the '!'-strings
+// among the first k plus the negated patterns from k on make up the total.
+//@ lemma partition(ps []*ignorePattern, strs []string, k int)
+//@   induction k up from 0
+//@   requires k <= len(ps) && len(ps) == len(strs)
+//@   requires forall j in 0..len(ps) :: ps[j] != nil && (ps[j].negated <==> strs[j][0] == '!')
+//@   ensures cin(strs, k) + cntneg(ps, k) == cntneg(ps, 0)
+
+//@ func NewIgnorer
+//@   postuses partition(ignorePatterns, patterns, _)
+//@   ensures[wf] result1 == nil ==> wfIgnorer(unboxptr(result0, "ignorer"))
+//@   ensures[same] result1 == nil ==> len(unboxptr(result0, "ignorer").patterns) == len(patterns)
+//@   ensures[same] result1 == nil ==> forall j in 0..len(patterns) :: (unboxptr(result0, "ignorer").patterns[j].negated <==> patterns[j][0] == '!')
+//@   loop 1 invariant rangeindex < len(patterns) && len(ignorePatterns) == len(patterns) && base(ignorePatterns) != base(patterns)
+//@   loop 1 invariant[count] negatedPatternCount == cin(patterns, rangeindex + 1)
+//@   loop 1 invariant[elems] forall j in 0..rangeindex+1 :: ignorePatterns[j] != nil && len(patterns[j]) > 0 && (ignorePatterns[j].negated <==> patterns[j][0] == '!')
+
+//@ func (*ignorer).Ignore
+//@   requires wfIgnorer(i)
+//@   uses cntnonneg(i.patterns, _), ignoredStable(i.patterns, path, directory, _)
+//@   ensures[lastmatch] result0 == verdict(i.patterns, path, directory, 0, 0)
+//@   ensures[nocontinue] !result1
+//@   modifies
+//@   loop 1 invariant rangeindex < len(i.patterns)
+//@   loop 1 invariant status == 0 || status == 1 || status == 2
+//@   loop 1 invariant[lastmatch] verdict(i.patterns, path, directory, rangeindex + 1, status) == verdict(i.patterns, path, directory, 0, 0)
+//@   loop 1 invariant[count] negatedPatternsRemaining == cntneg(i.patterns, rangeindex + 1)
